@@ -448,6 +448,28 @@ async fn real_node_main(sh: SharedRef, me: NodeCfg, me_addr: SocketAddr) -> turm
         s.subscribed.insert(id, BTreeMap::new());
         s.up.insert(id);
     }
+    // the membership layer's view over time (what the consistency-level oracle counts against)
+    {
+        let sh = sh.clone();
+        let mut rx = nv::members_of(&node);
+        tokio::task::spawn_local(async move {
+            loop {
+                let ids: BTreeSet<u8> = rx.borrow_and_update().keys().copied().collect();
+                {
+                    let mut s = sh.borrow_mut();
+                    if !s.up.contains(&id) {
+                        break;
+                    }
+                    let now = turmoil::elapsed().as_millis() as u64;
+                    s.views_hist.entry(id).or_default().push((now, ids.clone()));
+                    s.views.insert(id, ids);
+                }
+                if rx.changed().await.is_err() {
+                    break;
+                }
+            }
+        });
+    }
     // a component that subscribes right at start and applies each change it is handed, in order
     {
         let sh = sh.clone();
